@@ -47,6 +47,7 @@ type Plan struct {
 	Verbose    bool        `json:"verbose,omitempty"`
 	Twin       bool        `json:"twin,omitempty"`     // also run the unaffected scripts without a deadline and compare
 	Parallel   int         `json:"parallel,omitempty"` // how many subtests the T lets run at once (go test -parallel); 0 = all
+	Keep       string      `json:"keep,omitempty"`     // work directories are retained: testwork | workdirroot
 	PriorMs    int64       `json:"prior_ms,omitempty"` // an earlier RunT call in the same process (one short script) with this deadline distance; -1: without deadline; 0: none
 	Sched      simrt.Sched `json:"sched"`
 }
@@ -93,6 +94,9 @@ func genPlan(t *rapid.T, tier string) any {
 	p.Twin = rapid.IntRange(0, 2).Draw(t, "twin") == 0
 	if rapid.IntRange(0, 2).Draw(t, "limited") == 0 {
 		p.Parallel = rapid.SampledFrom([]int{1, 2, -1}).Draw(t, "parallel") // -1: a T whose Run is synchronous and Parallel a no-op
+	}
+	if rapid.IntRange(0, 4).Draw(t, "keepwork") == 0 {
+		p.Keep = rapid.SampledFrom([]string{"testwork", "workdirroot"}).Draw(t, "keep")
 	}
 	if rapid.IntRange(0, 2).Draw(t, "prior") == 0 {
 		p.PriorMs = rapid.SampledFrom([]int64{-1, 300, 2000, 40000, 600000}).Draw(t, "priordeadline")
@@ -203,6 +207,13 @@ func execute(t *testing.T, p *Plan, files []string, deadline time.Duration, keep
 		}
 		if deadline > 0 {
 			params.Deadline = epoch.Add(deadline)
+		}
+		switch p.Keep {
+		case "testwork":
+			params.TestWork = true
+		case "workdirroot":
+			params.WorkdirRoot = filepath.Join(gotmp, "kept")
+			os.MkdirAll(params.WorkdirRoot, 0o777)
 		}
 		func() {
 			defer func() {
@@ -438,6 +449,16 @@ func run(t *testing.T, plan any, keep bool) *simcheck.Outcome {
 		if D > 0 && sub.EndAt > D && (tiObs < 0 || sub.StartAt <= tiObs) {
 			out.Violate("finished-after-deadline", "subtest %s ended at %v, after the deadline %v", name, sub.EndAt, D)
 		}
+		if !sub.Failed && !sub.Skipped {
+			// a script reported as passed has run every one of its lines (these scripts contain no stop)
+			ranEnd := false
+			for _, pb := range res.probes {
+				ranEnd = ranEnd || (pb.script == name && pb.label == "end")
+			}
+			if !ranEnd {
+				out.Violate("passed-without-running", "script %s is reported as passed but its last line never ran (ended at %v, deadline %v); log:\n%s", name, sub.EndAt, D, sub.Log)
+			}
+		}
 		if affected[name] {
 			if !sub.Failed {
 				out.Violate("timeout-not-reported", "script %s had its foreground command interrupted by the deadline but was not reported as failed (skipped=%v); log:\n%s", name, sub.Skipped, sub.Log)
@@ -482,6 +503,9 @@ func run(t *testing.T, plan any, keep bool) *simcheck.Outcome {
 			for k, i := range idx {
 				a, b := res.subs[i], twin.subs[k]
 				la, lb := timing.ReplaceAllString(a.Log, "(T)"), timing.ReplaceAllString(b.Log, "(T)")
+				// with retained work directories the log names them, and the two runs use different temporary roots
+				la = strings.ReplaceAll(la, filepath.Join(dir, "tmp")+string(os.PathSeparator), "<tmp>/")
+				lb = strings.ReplaceAll(lb, filepath.Join(dir, "tmp2")+string(os.PathSeparator), "<tmp>/")
 				if a.Failed != b.Failed || a.Skipped != b.Skipped || la != lb {
 					out.Violate("affected-by-deadline", "script s%d finished before the deadline machinery fired, yet with a deadline: failed=%v skipped=%v, without: failed=%v skipped=%v; logs:\n--- with deadline\n%s\n--- without\n%s", i, a.Failed, a.Skipped, b.Failed, b.Skipped, la, lb)
 				}
@@ -511,7 +535,7 @@ var harness = &simcheck.Harness{
 	Level:    "exploration",
 	Rule: "rapid draws a deadline distance (300 ms ... 10 min, or none), 1-3 scripts (quick commands, optional background process (exits on the deadline's interrupt; reacts to the clean-up's SIGINT promptly, after 3s / 40s, or never), one main foreground command that exits early, " +
 		"exits at the interrupt instant +-{1ns,1us,1ms,30ms}, or never; reaction to SIGQUIT: default, ignore, exit after a delay below / around / above the grace period; optional '!' prefix; lines after it), " +
-		"verbosity, the number of subtests the T lets run at once (all, 1 or 2), whether a no-deadline twin run is compared, optionally an earlier RunT call in the same process with another deadline distance, and a schedule; non-trivial = a foreground command was interrupted or several scripts ran; distinct by decision-trace hash",
+		"verbosity, work-directory retention (none / TestWork / WorkdirRoot), the number of subtests the T lets run at once (all, 1 or 2), whether a no-deadline twin run is compared, optionally an earlier RunT call in the same process with another deadline distance, and a schedule; non-trivial = a foreground command was interrupted or several scripts ran; distinct by decision-trace hash",
 	Gen:     genPlan,
 	NewPlan: func() any { return &Plan{} },
 	Run:     run,
